@@ -280,6 +280,13 @@ class _Expr(SymEval):
                 if not all(isinstance(a, str) for a in args):
                     raise NotSymbolic(f"{r[1]} on non-constant arguments")
                 return _prog_call(_PURE_EXTERNALS[r[1]], *args)
+        if isinstance(f, ast.Attribute) and isinstance(f.value, ast.Attribute) and f.value.attr == "linalg" and isinstance(root, ast.Name) and root.id in self.np_names:
+            from .symarr import ProgramError
+
+            try:
+                return super().e_Call(n)
+            except ProgramError as exc:
+                raise Raised(str(exc)) from exc
         # numeric-only numpy helpers and reductions that SymEval does not know
         if isinstance(f, ast.Attribute) and isinstance(f.value, ast.Name) and f.value.id in self.np_names:
             args = [self.eval(a) for a in n.args]
